@@ -221,6 +221,7 @@ func newLocalStats() *localStats {
 // Stats is the merged result of exploring one harness.
 type Stats struct {
 	Harness     string           `json:"harness"`
+	Tier        string           `json:"tier,omitempty"`
 	Mode        string           `json:"mode"`
 	Bound       int              `json:"deviation_bound"`
 	Executions  int64            `json:"executions"`
@@ -424,7 +425,7 @@ func (e *Explorer) Explore() *Stats {
 	ws := &workStack{}
 	ws.cond = sync.NewCond(&ws.mu)
 	ws.items = [][]int{{}}
-	st := &Stats{Harness: h.Name, Mode: h.Mode, Bound: bound, Outcomes: map[string]int64{}, Caps: map[string]int64{}, Exhaustive: true}
+	st := &Stats{Harness: h.Name, Tier: e.Tier, Mode: h.Mode, Bound: bound, Outcomes: map[string]int64{}, Caps: map[string]int64{}, Exhaustive: true}
 	if st.Mode == "" {
 		st.Mode = "choice-tree DFS"
 	}
@@ -494,7 +495,7 @@ func (e *Explorer) Explore() *Stats {
 				local = append(local, children(prefix, c.trace, bound)...)
 				// share the oldest (shallowest) half when others are idle or the
 				// local stack grows large
-				if n := len(local); n > 512 || (n >= 16 && atomic.LoadInt32(&ws.waiting) > 0) {
+				if n := len(local); n >= 8 && atomic.LoadInt32(&ws.waiting) > 0 {
 					half := n / 2
 					give := make([][]int, half)
 					copy(give, local[:half])
